@@ -188,6 +188,16 @@ def _tok(s):
     return int(s) if re.fullmatch(r"-?[0-9]+", s) else s
 
 
+def _toks(lines, str_cols=()):
+    """typed tokens of the text lines; the columns DECLARED as chromosome names are read as strings by the loaders (explicit
+    dtype str), whatever they look like — a chromosome may be called "2" """
+    out = []
+    for ln in lines:
+        cells = ln.split("\t")
+        out.append([c if k in str_cols else _tok(c) for k, c in enumerate(cells)])
+    return out
+
+
 # ------------------------------------------------------------------------------------------------
 # dump
 # ------------------------------------------------------------------------------------------------
@@ -502,7 +512,14 @@ def _read_table(path, cols):
         {col: str(px[col].dtype) for col in cols}
 
 
+NUMERIC = ["1", "2", "3", "4", "5", "6", "7", "8", "9", "10", "11", "12"]
+
+
 def _load(case):
+    if case.get("names") == "numeric":
+        # every chromosome name a numeral (a BED reader that infers integers no longer matches the text records)
+        with gen.names_as(NUMERIC):
+            return _load({k: v for k, v in case.items() if k != "names"})
     store = case["store"]
     d = os.path.join(gen.tmpdir(), f"c16l-{os.getpid()}")
     os.makedirs(d, exist_ok=True)
@@ -542,8 +559,17 @@ def _load(case):
             lines = open(txt).read().split("\n")
             if lines and lines[-1] == "":
                 lines.pop()
+            rewrite = False
+            if v.get("ids_swapped") and fmt == "coo":
+                # the two id columns in the other order, declared with --field bin1_id=2 --field bin2_id=1
+                lines = ["\t".join([c[1], c[0]] + c[2:]) for c in (ln.split("\t") for ln in lines)]
+                # (once any --field is given, `count` is no longer implicit: it is declared too)
+                fieldargs = ["--field", "bin1_id=2", "--field", "bin2_id=1"] + (fieldargs or ["--field", "count=3"])
+                rewrite = True
             if v.get("shuffle") is not None:
                 random.Random(v["shuffle"]).shuffle(lines)
+                rewrite = True
+            if rewrite:
                 with open(txt, "w") as f:
                     f.write("".join(ln + "\n" for ln in lines))
             binsarg, extra = _bins_arg(d, bed, store["bins"], v.get("bins_arg"))
@@ -556,10 +582,10 @@ def _load(case):
             ctx = {"dump_argv": dargv[:-3] + ["-o", "<txt>", "<cool>"], "load_argv": largv[:-3] + ["<bed>" if binsarg == bed else "<chromsizes>:" + binsarg.rsplit(":", 1)[1], "<txt>", "<out>"],
                    "input": "\n".join(lines[:40]), "bins_bed": open(bed).read()}
             # the model on the same lines, cut into the reader's chunks
-            toks = [[_tok(t) for t in ln.split("\t")] for ln in lines]
+            toks = _toks(lines, (0, 3) if fmt == "bg2" else ())
             step = cs or max(len(toks), 1)
             chunks = [toks[k:k + step] for k in range(0, len(toks), step)]
-            base = [["bin1_id", 0], ["bin2_id", 1]] if fmt == "coo" else \
+            base = ([["bin1_id", 1], ["bin2_id", 0]] if v.get("ids_swapped") else [["bin1_id", 0], ["bin2_id", 1]]) if fmt == "coo" else \
                 [["chrom1", 0], ["start1", 1], ["end1", 2], ["chrom2", 3], ["start2", 4], ["end2", 5]]
             fl = base + ([[k, c] for k, c in fields.items()] if fields else [["count", ncoord]])
             m = drv().ask("C16.load", format=fmt, opts={"one_based": ob, "symm": store["symm"]}, bins=store["bins"],
@@ -624,6 +650,9 @@ def _pairs_line(rec, lay, bins, zero):
 
 
 def _pairs(case):
+    if case.get("names") == "numeric":
+        with gen.names_as(NUMERIC):
+            return _pairs({k: v for k, v in case.items() if k != "names"})
     bins, recs, zero, symm = case["bins"], case["records"], case["zero_based"], case["symm"]
     d = os.path.join(gen.tmpdir(), f"c16p-{os.getpid()}")
     os.makedirs(d, exist_ok=True)
@@ -635,7 +664,7 @@ def _pairs(case):
         for lay in case["layouts"]:
             lines = [_pairs_line(r, lay, bins, zero) for r in recs]
             texts.append(lines)
-            toks = [[_tok(t) for t in ln.split("\t")] for ln in lines]
+            toks = _toks(lines, (lay["cols"][0] - 1, lay["cols"][2] - 1))
             step = cs or max(len(toks), 1)
             fields = [[nm, c - 1] for nm, c in zip(["chrom1", "pos1", "chrom2", "pos2"], lay["cols"])]
             if lay.get("val"):
@@ -940,6 +969,9 @@ def _load_variants(rng, store, thorough):
         vs.append({"fmt": fmt, "one_based": rng.random() < 0.5, "chunksize": rng.choice([1, 2, 3, None]), "shuffle": rng.randrange(10 ** 6)})
         vs.append({"fmt": fmt, "one_based": rng.random() < 0.5, "chunksize": None, "as_float": True})
         vs.append({"fmt": fmt, "one_based": rng.random() < 0.5, "chunksize": rng.choice([2, None]), "bins_arg": "chromsizes"})
+        if fmt == "coo":
+            vs.append({"fmt": fmt, "one_based": rng.random() < 0.5, "chunksize": rng.choice([1, 2, None]), "ids_swapped": True,
+                       "shuffle": rng.randrange(10 ** 6) if rng.random() < 0.5 else None})
         if store.get("ext") and store["ext"]["kind"] == "int":
             kinds = LOAD_FIELD_KINDS if thorough else rng.sample(LOAD_FIELD_KINDS, 2)
             for k in kinds:
@@ -1026,6 +1058,10 @@ def cases(tier, rng):
             st["pixels"] = gen.matrix_kinds(rng, n, symm, "full")
             st["kind"] = "full"
         yield "load", {"store": st, "variants": _load_variants(rng, st, thorough)}
+    # the same with chromosome names that are all numerals
+    st = _gen_store(rng, 4, True, "dense-random", False, "int")
+    yield "load", {"store": st, "names": "numeric",
+                   "variants": [v for v in _load_variants(rng, st, thorough) if not v.get("field")][:: (1 if thorough else 3)]}
     # --- pairs ----------------------------------------------------------------------------------------
     pplan = [(False, True), (True, True), (False, False), (True, False)]
     if thorough:
@@ -1036,6 +1072,9 @@ def cases(tier, rng):
         lays = [{"cols": p, "width": 4} for p in PERMS] + WIDE + WIDE_VAL
         yield "pairs", {"bins": bins, "records": recs, "zero_based": zero, "symm": symm, "layouts": lays,
                         "chunksize": rng.choice([None, 1, 2, 3])}
+    bins = _gen_bins(rng, 5, False)
+    yield "pairs", {"bins": bins, "records": _gen_records(rng, bins, False, 6), "zero_based": False, "symm": True, "names": "numeric",
+                    "layouts": [{"cols": p, "width": 4} for p in PERMS[:: (1 if thorough else 5)]] + WIDE[:2], "chunksize": 2}
     # --- units ----------------------------------------------------------------------------------------
     for _ in range(60 if thorough else 20):
         w = rng.randint(2, 7)
@@ -1057,6 +1096,13 @@ def cases(tier, rng):
     px = [[0, 0, 4], [0, 7, 1], [3, 900, 2], [100, 101, 5], [2047, 2047, 1]]
     for spec in ZOOM_SPECS if thorough else ZOOM_SPECS[:9] + ["x"]:
         yield "zoomify_spec", {"nbins": 2048, "binsize": 10, "spec": spec, "pixels": px}
+    # genome lengths that are NOT multiples of 256, where ceil(L/256) is itself a term of the progression (the coarsest level
+    # exists only if the bound is a ceiling): L = 1000 -> 4, 257 -> 2, 1200 -> 5, 2305 -> 10
+    for nb, bs, specs in ((1000, 1, ["b", "n", "1b", "2b", "1n"]), (257, 1, ["b", "n"]), (600, 2, ["n", "2n", "b"]),
+                          (461, 5, ["n", "b", "5n"])):
+        for spec in specs if thorough else specs[:2]:
+            yield "zoomify_spec", {"nbins": nb, "binsize": bs, "spec": spec,
+                                   "pixels": [[0, 0, 4], [0, 7, 1], [3, nb - 2, 2], [100, 101, 5], [nb - 1, nb - 1, 1]]}
 
 
 def nontrivial(name, case):
